@@ -3,6 +3,7 @@ import Driver.Geom
 import Driver.Render
 import Driver.Cascade
 import Driver.Links
+import Driver.Build
 open Driver
 
 def step (line : String) : String :=
@@ -18,6 +19,7 @@ def step (line : String) : String :=
   | "light" :: args => handleRender "light" args
   | "hrefchain" :: args => handleLinks "hrefchain" args
   | "enterdef" :: args => handleLinks "enterdef" args
+  | "build" :: args => handleBuild args
   | "casc" :: args => handleCascade "casc" args
   | "expand" :: args => handleCascade "expand" args
   | "attrclass" :: args => handleCascade "attrclass" args
